@@ -861,6 +861,28 @@ Definition step (g : cfg) (ord : list N) (s : state) (o : op) : state * obs :=
     end in
   (gc s, ob).
 
+(* the hypothesis of the routing theorem (proofs/ReqResRoute.v), executable so that the driver
+   can evaluate it on every history: the connection that response_sender.connections[idx]
+   resolves to after update_connections belongs to the client whose request is answered *)
+Definition send_okb (g : cfg) (s : state) (r : rloanrec) : bool :=
+  match act_conn (server_reclaim (server_sync g s (rl_sv r)) (rl_sv r)) (rl_sv r) (rl_idx r) with
+  | Some k => N.eqb (k_cl k) (p_ocl (rl_msg r))
+  | None => true
+  end.
+Definition step_send_okb (g : cfg) (s : state) (o : op) : bool :=
+  match o with
+  | Aw => match s_rloans s with r :: t => send_okb g (st_rloans s t) r | [] => true end
+  | As a => match nth_opt (s_acts s) a with
+            | Some ar =>
+              match act_loan g (bump_act_seq s (ac_uid ar)) ar (q_hid (ac_msg ar) * 10000 + ac_slot ar * 1000 + ac_seq ar) with
+              | (s2, inr r) => send_okb g s2 r
+              | _ => true
+              end
+            | None => true
+            end
+  | _ => true
+  end.
+
 (* read-only digest printed by the harness after every operation *)
 Definition digest_p (s : state) : list (N * bool * bool) :=
   map (fun p => (q_hid (pn_msg p), pend_connected s p, pend_has_response s p)) (s_pends s).
